@@ -57,7 +57,18 @@ def configs(tier):
         for perm in [PERMS3[1], PERMS3[2], LOWER[0], LOWER[3]]:
             out.append(dict(rshape=[2, 3, 4], perm=list(perm), ab='unit', same=True))
         out.append(dict(rshape=[3, 4], perm=[1, 0], ab='unit', same=True))
+        # datasets linked through their WORLD coordinates (both carry affine coordinates; the pixel-to-pixel map is
+        # the composition pixel -> world -> world -> pixel)
+        out.append(dict(rshape=[2, 3, 4], perm=[2, 0, 1], ab='mixed', world=True))
+        out.append(dict(rshape=[3, 4], perm=[1, 0], ab='mixed', world=True))
+        out.append(dict(rshape=[2, 3, 4], perm=list(LOWER[0]), ab='shift', world=True))
     else:
+        for perm in PERMS3[:3] + LOWER[:2]:
+            for ab in ('mixed', 'shift', 'flip'):
+                out.append(dict(rshape=[2, 3, 4], perm=list(perm), ab=ab, world=True))
+        for perm in PERMS2:
+            for ab in ('mixed', 'flip'):
+                out.append(dict(rshape=[3, 4], perm=list(perm), ab=ab, world=True))
         for perm in PERMS3 + LOWER:
             out.append(dict(rshape=[2, 3, 4], perm=list(perm), ab='unit', same=True))
         for perm in PERMS2:
@@ -83,8 +94,8 @@ def cfg_class(cfg):
         kind = 'aligned'
     else:
         kind = 'permuted'
-    return 'nd=%d|%s%s%s' % (nd, kind, '|relinked' if cfg.get('relink') else '',
-                             '|pixel-aligned' if cfg.get('same') else '')
+    return 'nd=%d|%s%s%s%s' % (nd, kind, '|relinked' if cfg.get('relink') else '',
+                               '|pixel-aligned' if cfg.get('same') else '', '|world-linked' if cfg.get('world') else '')
 
 
 class World(object):
@@ -101,7 +112,9 @@ def build_world(cfg):
     w = World()
     rshape = tuple(cfg['rshape'])
     k, c = VALUE_PALETTES[core.seed() % len(VALUE_PALETTES)]
-    w.R = Data(r=np.arange(int(np.prod(rshape)), dtype=float).reshape(rshape), label='R')
+    from glue.core.coordinates import AffineCoordinates
+    rcoords = AffineCoordinates(np.eye(len(rshape) + 1)) if cfg.get('world') else None      # world = pixel
+    w.R = Data(r=np.arange(int(np.prod(rshape)), dtype=float).reshape(rshape), label='R', coords=rcoords)
     w.sources = {}
     w.maps = {}
     w.arrays = {}
@@ -112,7 +125,16 @@ def build_world(cfg):
         comps = {}
         for j, a in enumerate(attrs):
             comps[a] = ((k + j) * np.arange(n, dtype=float) + c - 17 * j).reshape(shp)
-        S = Data(label=name, **comps)
+        scoords = None
+        if cfg.get('world') and name == 'S':
+            # source pixel = a * world + b   <=>   world = pixel / a - b / a   (matrix rows in x, y, ... order)
+            ns = len(shp)
+            m = np.eye(ns + 1)
+            for ia in range(ns):
+                m[ns - 1 - ia, ns - 1 - ia] = 1.0 / ab[ia][0]
+                m[ns - 1 - ia, -1] = -ab[ia][1] / ab[ia][0]
+            scoords = AffineCoordinates(m)
+        S = Data(label=name, coords=scoords, **comps)
         w.sources[name] = S
         w.maps[name] = [(ra, ab[ia][0], ab[ia][1]) for ia, ra in enumerate(perm)]
         for a in attrs:
@@ -131,7 +153,9 @@ def build_world(cfg):
         for ia, (ra, a, b) in enumerate(w.maps[name]):
             f = (lambda a, b: (lambda x: a * x + b))(a, b)
             g = (lambda a, b: (lambda y: (y - b) / a))(a, b)
-            if cfg.get('same') and name == 'S':
+            if cfg.get('world') and name == 'S':
+                w.dc.add_link(LinkSame(w.R.world_component_ids[ra], D.world_component_ids[ia]))
+            elif cfg.get('same') and name == 'S':
                 if (a, b) != (1.0, 0.0):
                     raise core.EngineError('pixel-aligned configurations need the unit map')
                 w.dc.add_link(LinkSame(w.R.pixel_component_ids[ra], D.pixel_component_ids[ia]))
